@@ -162,6 +162,9 @@ func (ex *Exec) lookupModel(fn *ssa.Function) modelFn {
 			return m
 		}
 	}
+	if fn.Name() == "init" && fn.Pkg != ex.pkg && fn.Pkg != nil && fn.Pkg.Pkg.Path() == "unicode/utf8" {
+		return nil // table-driven package whose functions are executed for real: its init (constant tables) runs
+	}
 	if fn.Name() == "init" && fn.Pkg != ex.pkg {
 		return func(ex *Exec, c *callCtx) Value { return nil }
 	}
